@@ -432,12 +432,37 @@ def scalar_table_case(ctx):
     return True
 
 
+def empty_accumulator_histories(rng):
+    """every operator class: an EMPTY operator as the left operand / accumulator of the first step, then further steps on the
+    result (the idiom `acc = Op(); for t in terms: acc += t`, `sum(ops, Op())`); every later step must leave the addends alone"""
+    out = []
+    for kind, classes in (("fermion", ["tfermion", "offermion"]), ("qubit", ["tqubit", "ofqubit", "qham"])):
+        for cls in classes:
+            attrs = (4, 2, 0) if cls == "tfermion" else (("JW", False) if cls == "qham" else None)
+            def new(i, empty=False):
+                t = {} if empty else rand_terms(rng, kind)
+                return {"op": "o_new", "dst": f"o{i}", "cls": cls, "terms": t, "attrs": attrs}
+            base = [new(0, empty=True), new(1), new(2)]
+            z = {"z": rand_coef(rng), "left": False, "zt": 0}
+            out.append(base + [{"op": "o_iadd", "a": "o0", "b": "o1"}, {"op": "o_iadd", "a": "o0", "b": "o2"}, {"op": "o_imul", "a": "o0", "b": "o2"}])
+            out.append(base + [{"op": "o_add", "a": "o0", "b": "o1", "dst": "o3"}, {"op": "o_iadd", "a": "o3", "b": "o2"}, {"op": "o_imul", "a": "o3", "b": "o1"}])
+            out.append(base + [{"op": "o_add", "a": "o1", "b": "o0", "dst": "o3"}, {"op": "o_iadd", "a": "o3", "b": "o2"}, {"op": "o_smul", "a": "o3", "dst": "o3", **z}])
+            out.append(base + [{"op": "o_sub", "a": "o0", "b": "o1", "dst": "o3"}, {"op": "o_iadd", "a": "o3", "b": "o2"}])
+            out.append(base + [{"op": "o_mul", "a": "o0", "b": "o1", "dst": "o3"}, {"op": "o_iadd", "a": "o3", "b": "o2"}, {"op": "o_iadd", "a": "o3", "b": "o1"}])
+            out.append(base + [{"op": "o_copy", "a": "o0", "dst": "o3"}, {"op": "o_iadd", "a": "o3", "b": "o1"}, {"op": "o_iadd", "a": "o3", "b": "o1"}])
+    return out
+
+
 def run(ctx):
     rng = ctx.rng
     if not scalar_table_case(ctx):
         return
     for n_rows in [5, 40, 127, 128, 129, 200, 300] + ([] if ctx.quick else [600, 1000]):
         if not collapse_case(ctx, rng, n_rows, rng.randint(2, 5)):
+            return
+    for hist in empty_accumulator_histories(rng):
+        ctx.count("history:empty-accumulator")
+        if not run_history(ctx, hist) and len(ctx.violations) + len(ctx.mismatches) >= 3:
             return
     for i in range(ctx.n(160, 2000)):
         if not run_history(ctx, rand_history(rng)) and len(ctx.violations) + len(ctx.mismatches) >= 3:
